@@ -123,7 +123,9 @@ class BuilderNF:
         return norm(canon(t, self.memo), self.nmemo)
 
     # -- deep term collection ---------------------------------------------------------------
-    def deep_terms(self, t, seen=None, values_only=False):
+    ORDER_FREE = ("len", "sum", "any", "all", "min", "max", "bool")
+
+    def deep_terms(self, t, seen=None, values_only=False, skip_counts=False):
         """All terms reachable from t through heap objects (final contents).  ``values_only``: follow only what can become
         part of the value - not the tests that choose between alternatives, nor computed dict keys."""
         if seen is None:
@@ -141,6 +143,8 @@ class BuilderNF:
                 stack.append(x[3])
                 continue
             out.append(x)
+            if skip_counts and x[0] == "call" and x[1] in self.ORDER_FREE:
+                continue        # a count / total / extremum of a sequence does not depend on the order it is walked in
             if x[0] == "ref":
                 if x in seen:
                     continue
@@ -572,7 +576,7 @@ def rule_order(rep: Report, rid="C03.order") -> None:
                 else:
                     return out
         for v, _line, _gs in br.returns:
-            terms = b.deep_terms(v, seen)
+            terms = b.deep_terms(v, seen, skip_counts=True)
             covered = set()
             for t in terms:
                 if t[0] == "call" and t[1] == "reversed":
